@@ -568,6 +568,7 @@ pub fn check_execution(p: &Prepared, out: &Outcome) -> Quiescent {
         if let Some(n) = f.limit {
             if keys.len() > n {
                 fs.push(TFinding { property: "C18", monitor: format!("{flav}/{pol}/over-limit-at-quiescence"), detail: format!("{} holds {:?} with limit {n}", f.fn_name, keys) });
+                fs.push(TFinding { property: "C04", monitor: format!("{flav}/{pol}/over-limit-after-concurrent-stores"), detail: format!("every caller has returned and {} holds {:?} with limit {n}", f.fn_name, keys) });
             }
         }
         if let Some(m) = f.mem {
@@ -922,6 +923,20 @@ pub fn drivers_for(property: &str, thorough: bool) -> Vec<Driver> {
                                 push(lbl("get-expired~put-other"), vec![SOp::Op(TOp::L0Put(0, 0)), SOp::Tick((t + 1) * NS)], vec![vec![TOp::L0Get(0)], vec![TOp::L0Put(1, 0)]], Some(cfg.clone()), false);
                             }
                         }
+                    }
+                }
+            }
+        }
+        "C04" => {
+            // the entry limit also holds once concurrent stores have completed
+            for fl in [Flavour::Global, Flavour::Async] {
+                for f in conc(fl).into_iter().filter(|f| f.limit.is_some() && f.ttl.is_none() && f.mem.is_none()) {
+                    push(format!("{}:store~store", f.fn_name), vec![], vec![vec![call(f, 2)], vec![call(f, 3)]], None, false);
+                    push(format!("{}:store~store at the limit", f.fn_name), vec![SOp::Op(call(f, 1))], vec![vec![call(f, 2)], vec![call(f, 3)]], None, false);
+                    push(format!("{}:store~store same key", f.fn_name), vec![SOp::Op(call(f, 1))], vec![vec![call(f, 2)], vec![call(f, 2)]], None, false);
+                    push(format!("{}:two stores~hit", f.fn_name), vec![SOp::Op(call(f, 1))], vec![vec![call(f, 2), call(f, 3)], vec![call(f, 1)]], None, false);
+                    if thorough {
+                        push(format!("{}:3 stores", f.fn_name), vec![SOp::Op(call(f, 1))], vec![vec![call(f, 2)], vec![call(f, 3)], vec![call(f, 4)]], None, false);
                     }
                 }
             }
